@@ -489,6 +489,10 @@ func (c *Conn) Close() error {
 		w.Broker.connClosed(c)
 	}
 	w.cond.Broadcast()
+	if w.CloseErr != nil {
+		// the connection is closed all the same; the transport complains
+		return w.CloseErr
+	}
 	return nil
 }
 
